@@ -62,6 +62,8 @@ pub struct Oracle {
     /// (candidate, term) -> (candidate + granting voters, voters asked)
     pub election_votes: BTreeMap<(u32, u64), (BTreeSet<u32>, BTreeSet<u32>)>,
     pub leader_first_seen: BTreeSet<(u32, u64)>,
+    /// event number at which (node, term) was first seen in the Leader role
+    pub leader_seen_at: BTreeMap<(u32, u64), usize>,
     pub prev_role: BTreeMap<u32, RoleKind>,
     /// quorums actually used: ("election", term, members) / ("commit", term of the leader, holders)
     pub used_quorums: Vec<(String, u64, u64, BTreeSet<u32>, BTreeSet<u32>)>,
@@ -200,7 +202,6 @@ impl Oracle {
         out_reqs: &[AppendEntriesRequest],
         observer: &Observer,
     ) {
-        let _ = event_no;
         // ---- C02: term never decreases (across incarnations too)
         let mt = self.max_term.entry(v.id).or_insert(0);
         if v.term < *mt {
@@ -224,6 +225,7 @@ impl Oracle {
             // a role transition into Leader (a leader whose term was bumped while its step-down
             // is queued is not a new leadership)
             let was_leader = self.prev_role.get(&v.id) == Some(&RoleKind::Leader);
+            self.leader_seen_at.entry((v.id, v.term)).or_insert(event_no);
             if !was_leader && self.leader_first_seen.insert((v.id, v.term)) {
                 // ---- C03: leadership without anybody else's vote only as the sole voter
                 let active = d_engine_proto::common::NodeStatus::Active as i32;
